@@ -37,7 +37,7 @@ func runC13(c *Ctx) {
 		exp := expected("$connT.INIT", "field:ClientId(field:Counterparty($MSG))", "field:ClientId($MSG)", `""`, "field:DelayPeriod($MSG)", "field:CounterpartyVersions($MSG)")
 		c.Check(which, "C13/try", c.Calls(rr, setConn), 1, m, nil,
 			Req{Name: "stores-TRYOPEN-under-generated-id", Args: map[int]string{2: `~key("connection-{d}", _)`,
-				3: "~and(~wf(State, $connT.TRYOPEN), ~wf(ClientId, field:ClientId($MSG)), ~wf(Counterparty, field:Counterparty($MSG)), ~wf(DelayPeriod, field:DelayPeriod($MSG)), ~wf(Versions, arr(~or(extract:0(call:$connT.PickVersion(_, field:CounterpartyVersions($MSG))), addr#*))))"}},
+				3: "~and(~wf(State, $connT.TRYOPEN), ~wf(ClientId, field:ClientId($MSG)), ~wf(Counterparty, field:Counterparty($MSG)), ~wf(DelayPeriod, field:DelayPeriod($MSG)), ~wf(Versions, arr(~or(extract:0(call:$connT.PickVersion(_, field:CounterpartyVersions($MSG))), addr#*, ref(_)))))"}},
 			Req{Name: "after-proof-of-counterparty-INIT", Any: all(
 				verify("field:ClientId($MSG)", "field:Prefix(field:Counterparty($MSG))", "field:ConnectionId(field:Counterparty($MSG))", "ProofInit", exp),
 				"ok(call:$connT.PickVersion(_, field:CounterpartyVersions($MSG)))",
